@@ -44,7 +44,8 @@ class Hang(Exception):
 # scenario
 # --------------------------------------------------------------------------------------
 class Scenario:
-    def __init__(self, aggs, calls, init="absent", prior=(), normal_exit=True, same_dir=True, name=""):
+    def __init__(self, aggs, calls, init="absent", prior=(), normal_exit=True, same_dir=True, name="", out_names=None,
+                 workers="threads"):
         self.aggs = list(aggs)                  # ["A"] / ["A", "B"]
         self.calls = [dict(c) for c in calls]   # {"agg", "kind": "eval"|"stat", "subj"}
         self.init = init                        # "absent" | "empty" | "header" | "rows"
@@ -52,6 +53,8 @@ class Scenario:
         self.normal_exit = normal_exit
         self.same_dir = same_dir
         self.name = name
+        self.out_names = dict(out_names or {})     # aggregator id -> file name of its output file
+        self.workers = workers                     # "threads" | "processes": how the calls of a session run
 
     def subjects(self, agg):
         return [c["subj"] for c in self.calls if c["agg"] == agg and c["kind"] == "eval"]
@@ -210,7 +213,7 @@ class Wrappers:
 
     def tracked(self, path):
         s = str(path)
-        return s.endswith(".tsv")
+        return s.endswith(".tsv") or "panoptica_aggregator_tmp" in s
 
     def install(self):
         import builtins
@@ -518,7 +521,7 @@ class History:
         for i, a in enumerate(scn.aggs):
             d = workdir / ("d" if scn.same_dir else f"d{i}")
             d.mkdir(exist_ok=True)
-            self.out_paths[a] = d / f"{a}.tsv"
+            self.out_paths[a] = d / scn.out_names.get(a, f"{a}.tsv")
             if scn.init == "empty":
                 self.out_paths[a].write_text("")
             elif scn.init == "header":
